@@ -111,6 +111,33 @@ def generate(tier, seed, ctx):
         pub, priv = first
         rec['pubok'] = int(K.private_key_to_public_key(priv) == pub and SigningKey(priv[:32]).verify_key.encode() == pub)
         out.append(rec)
+    # derivation is a function of (mnemonic, salt) whatever was derived before: histories that interleave the public
+    # mnemonic_to_seed with other salts and the key helpers; ground truth from hashlib / libsodium directly
+    import hashlib as _hl, hmac as _hm
+    from nacl.bindings import crypto_sign_seed_keypair as _kp
+
+    def true_seed(ws, salt):
+        return _hl.pbkdf2_hmac('sha512', _hm.new(' '.join(ws).encode(), b'', _hl.sha512).digest(), salt, 100000)
+
+    def true_priv(ws):
+        return _kp(true_seed(ws, b'TON default seed')[:32])
+
+    salts = [b'TON HD Keys seed', b'TON default seed', b'TON fast seed version', b'']
+    for k, w in enumerate(mn[:2 if q else 10]):
+        order = salts[:] if k % 2 == 0 else salts[::-1]
+        ev = []
+        def add(fn, salt, got, want):
+            ev.append({'fn': fn, 'salt': list(salt), 'out': list(got if isinstance(got, bytes) else got[0] + got[1]),
+                       'truth': list(want if isinstance(want, bytes) else want[0] + want[1])})
+        add('seed', order[0], K.mnemonic_to_seed(list(w), order[0]), true_seed(w, order[0]))
+        add('wallet_key', b'', K.mnemonic_to_wallet_key(list(w)), _kp(true_priv(w)[1][:32]))
+        add('seed', order[1], K.mnemonic_to_seed(list(w), order[1]), true_seed(w, order[1]))
+        add('private_key', b'', K.mnemonic_to_private_key(list(w)), true_priv(w))
+        for sa in order[2:] + order[:1]:
+            add('seed', sa, K.mnemonic_to_seed(list(w), sa), true_seed(w, sa))
+        other = mn[(k + 1) % len(mn)]
+        add('seed_other_mnemonic', order[0], K.mnemonic_to_seed(list(other), order[0]), true_seed(other, order[0]))
+        out.append({'op': 'derive', 'events': ev})
     # the validity rule itself, on mnemonics that contain the first / second / last word of the list (generated ones rarely do):
     # ground truth from hashlib directly - entropy = HMAC-SHA512(key = words joined by spaces, msg = empty),
     # valid iff PBKDF2-HMAC-SHA512(entropy, "TON seed version", 390 iterations)[0] = 0
@@ -136,6 +163,11 @@ def generate(tier, seed, ctx):
 
 
 def canary(r, rng):
+    if r['op'] == 'derive':
+        e = rng.choice(r['events'])
+        e['out'][rng.randrange(len(e['out']))] ^= 1
+        r['canary'] = 'derived byte'
+        return r
     if r['op'] == 'chan':
         f = rng.choice(['pab', 'decb', 'A'])
         if f == 'A':
